@@ -75,7 +75,7 @@ for kind in (1, 2, 3, 4):
         cfgs=CFG_TREE, thorough_cfgs=ALL_CFGS, unwind={1: 19, 2: 50, 3: 258, 4: 258}[kind], unwindset=({'N48_ADD': 8} if kind == 3 else None),
         unwindset_raw={'nv_load.0': 260, 'nv_load.1': 260, 'nv_child.0': 18, 'nv_wf_small.0': 18, 'nv_wf_48_full.0': 50, 'nv_wf_48_full.1': 260, 'nv_wf_256_full.0': 260, 'node_wf.0': 50, 'adt_tag.0': 10,
                        'lg_freed.0': 6, 'lg_on_free.0': 6, 'stats_load.0': 7, 'stats_load.1': 6, 'stats_check.0': 7, 'stats_check.1': 6},
-        floor=20, timeout=1800, mem_gb=20, objbits=14, memsafe=False,
+        floor=20, timeout=1800, mem_gb=(12 if kind == 1 else 20), objbits=14, memsafe=False,
         under_contract=['impl_helpers::add_or_choose_subtree<inode_%d> (db: descend / in-place add / growth, allocation failure)' % n, 'basic_inode_%d::add_to_nonfull' % n] + (['growing constructor of the next larger class'] if kind <= 2 else []),
         trusted=['node_ptr as an abstract data type', 'one-level unfolding of the abstract map (composition with get/insert loop invariants is the induction of DESIGN.md 4.4)'] + (['NOT covered: the N48 -> N256 growth branch (copy routine cut off)'] if kind == 3 else []))
 # ---- remove at an inner node of class N48 / N256: impl_helpers::remove_or_choose_subtree<inode_N> with a structural contract (light form of the parked remove.k3/k4 step)
